@@ -227,8 +227,103 @@ where
     }
 }
 
+/// Shapes with pointer-sized integers and length-prefixed kinds, and a value whose usize / isize fields are
+/// inside the target's pointer range (on a 32-bit target a `usize` cannot hold more).
+fn ptr_sized_case(rng: &mut Rng) -> (Shape, Val) {
+    let bits = usize::BITS;
+    let u = |rng: &mut Rng| Val::U64(gen_uint(rng, bits) as u64);
+    let i = |rng: &mut Rng| Val::I64(gen_int(rng, bits) as i64);
+    match rng.below(4) {
+        0 => (Shape::Usize, u(rng)),
+        1 => (Shape::Isize, i(rng)),
+        2 => (
+            Shape::Struct("P0", vec![("a", Shape::Usize), ("b", Shape::Isize), ("c", Shape::Str), ("d", Shape::Seq(Box::new(Shape::Usize)))]),
+            Val::Struct("P0", vec![("a", u(rng)), ("b", i(rng)), ("c", Val::Str(gen_string(rng, 6))), ("d", Val::Seq((0..rng.range(0, 3)).map(|_| u(rng)).collect()))]),
+        ),
+        _ => (
+            Shape::Tuple(vec![Shape::Isize, Shape::Bytes, Shape::Option(Box::new(Shape::Isize))]),
+            Val::Tuple(vec![i(rng), Val::Bytes(rng.bytes(3)), if rng.chance(1, 2) { Val::Some(Box::new(i(rng))) } else { Val::None }]),
+        ),
+    }
+}
+
+/// Lean interpreter workload for C17 (used for the 32-bit target, where postcard-dyn handles pointer-sized
+/// integers and length prefixes with 32-bit varints).
+fn lean_c17(t: &mut Tctx) {
+    let mut n = 0u64;
+    let limit = t.cfg.knob_u64("lean_shapes", 300);
+    while !t.cfg.expired() && n < limit {
+        n += 1;
+        let (shape, mut val) = if n % 2 == 0 {
+            ptr_sized_case(&mut t.rng)
+        } else {
+            let mut o = ShapeOpts::small();
+            o.allow_ptr_sized = false;
+            let depth = t.rng.range(0, 2) as u32;
+            let shape = restrict_shape(&gen_shape(&mut t.rng, depth, &o));
+            let val = {
+                let mut g = ValGen::small(&mut t.rng);
+                g.max_len = 3;
+                g.max_str = 8;
+                g.gen(&shape)
+            };
+            (shape, val)
+        };
+        restrict_val(&mut val);
+        let schema = shape_to_owned(&shape);
+        if let (Ok(sb), Ok(json)) = (postcard::to_allocvec(&val), serde_json::to_value(&val)) {
+            t.st.count("lean_cases");
+            c17_case(t, &schema, &shape, &val, &sb, &json, "lean");
+        }
+    }
+}
+
+/// Lean interpreter workload for C18 (32-bit target): pointer-sized and length-prefixed schema nodes x
+/// valid / truncated / edge-of-pointer-width inputs, and JSON numbers around 2^31, 2^32 and 2^63.
+fn lean_c18(t: &mut Tctx) {
+    let mut n = 0u64;
+    let limit = t.cfg.knob_u64("lean_shapes", 300);
+    while !t.cfg.expired() && n < limit {
+        n += 1;
+        let (shape, val) = ptr_sized_case(&mut t.rng);
+        let schema = shape_to_owned(&shape);
+        let nodes = shape.nodes();
+        let valid = spec::encode(&val);
+        t.st.count("lean_cases");
+        c18_decode(t, &schema, &shape, nodes, "valid", &valid);
+        if valid.len() > 1 {
+            c18_decode(t, &schema, &shape, nodes, "prefix", &valid[..valid.len() - 1]);
+        }
+        for pre in [
+            vec![0xFFu8, 0xFF, 0xFF, 0xFF, 0x0F],
+            vec![0x80, 0x80, 0x80, 0x80, 0x10],
+            vec![0xFF, 0xFF, 0xFF, 0xFF, 0x1F],
+            vec![0x81, 0x80, 0x80, 0x80, 0x80, 0x00],
+            vec![0xFF, 0xFF, 0xFF, 0xFF, 0xFF, 0xFF, 0xFF, 0xFF, 0xFF, 0x01],
+        ] {
+            let mut m = pre.clone();
+            m.extend_from_slice(&valid[valid.len().min(1)..]);
+            c18_decode(t, &schema, &shape, nodes, "edge_varint", &m);
+        }
+        if let Ok(j) = serde_json::to_value(&val) {
+            c18_encode(t, &schema, &shape, "type_correct", &j);
+        }
+        for x in [2147483647i64, 2147483648, -2147483648, -2147483649, 4294967295, 4294967296, i64::MAX, i64::MIN] {
+            c18_encode(t, &shape_to_owned(&Shape::Usize), &Shape::Usize, "near_miss", &Value::from(x));
+            c18_encode(t, &shape_to_owned(&Shape::Isize), &Shape::Isize, "near_miss", &Value::from(x));
+        }
+        c18_encode(t, &shape_to_owned(&Shape::Usize), &Shape::Usize, "near_miss", &Value::from(u64::MAX));
+    }
+}
+
 pub fn run_c17(cfg: &Cfg) -> Report {
     let mut rep = Report::new("C17");
+    if cfg.tier == Tier::Tiny && cfg.knob_u64("lean", 0) == 1 {
+        let s = parallel(cfg, 1, |t| lean_c17(t));
+        rep.stats.merge(s);
+        rep.rule = "lean interpreter workload: pointer-sized integers within the target's range, length-prefixed kinds and small random shapes; dynamic encode == static bytes, dynamic decode == serde_json value".into();
+        return rep;
+    }
     let s = parallel(cfg, 1, |t| {
         let n = t.cfg.scale(30, 60_000, 1_500_000);
         for i in 0..n {
@@ -660,6 +755,12 @@ fn c18_encode(t: &mut Tctx, schema: &OwnedDataModelType, shape: &Shape, class: &
 
 pub fn run_c18(cfg: &Cfg) -> Report {
     let mut rep = Report::new("C18");
+    if cfg.tier == Tier::Tiny && cfg.knob_u64("lean", 0) == 1 {
+        let s = parallel(cfg, 1, |t| lean_c18(t));
+        rep.stats.merge(s);
+        rep.rule = "lean interpreter workload: pointer-sized and length-prefixed schema nodes x valid / truncated / edge-of-pointer-width inputs; JSON numbers around 2^31, 2^32, 2^63; totality, allocation bound and the decode/re-encode fixpoint".into();
+        return rep;
+    }
     let s = parallel(cfg, 1, |t| {
         let n = t.cfg.scale(20, 2_500, 60_000);
         let o = SchemaOpts { max_depth: 5, max_fan: 5, unique_names: true, allow_schema_kind: true };
@@ -784,9 +885,15 @@ pub fn replay(cfg: &Cfg, prop: &str) -> Report {
         let json: Option<Value> = m.get("json").and_then(|j| serde_json::from_str(j).ok());
         if prop_s == "C17" {
             let sb = pcv_core::json::unhex(m.get("static_bytes").map(|s| s.as_str()).unwrap_or("")).unwrap_or_default();
-            match (spec::decode(&shape, &sb), json) {
-                (Ok(d), Some(j)) => c17_case(t, &schema, &shape, &d.val, &sb, &j, "replay"),
-                _ => t.st.inconclusive("replay: static bytes do not decode under the reference decoder or JSON unparsable".into()),
+            match spec::decode(&shape, &sb) {
+                Ok(d) => {
+                    // serde_json's parser stops at 128 levels; deeply nested cases rebuild the JSON from the value
+                    match json.or_else(|| serde_json::to_value(&d.val).ok()) {
+                        Some(j) => c17_case(t, &schema, &shape, &d.val, &sb, &j, "replay"),
+                        None => t.st.inconclusive("replay: the value has no JSON form".into()),
+                    }
+                }
+                Err(_) => t.st.inconclusive("replay: static bytes do not decode under the reference decoder".into()),
             }
         } else {
             match m.get("kind").map(|s| s.as_str()) {
